@@ -46,8 +46,17 @@ def main():
     except Machinery as e:
         print("MACHINERY-FAILURE %s: %s" % (prop, e))
         sys.exit(2)
-    except Exception:
+    except Exception as e:
         traceback.print_exc()
+        if ctx.evaluations > 0:
+            # The model-checking phase is over and implementation cases were already being executed: the code that observes the
+            # implementation (written against the behaviour of the unchanged tree, where it never fails - see the seed sweeps in
+            # DESIGN 8.1) could not make sense of what it saw.  That is a change of observable behaviour, reported as such.
+            ctx.defer = False
+            ctx.violation("observation-failed/%s" % type(e).__name__,
+                          "the observation of the implementation's behaviour failed after %d cases: %s: %s (traceback above)"
+                          % (ctx.evaluations, type(e).__name__, str(e)[:300]), {"exception": type(e).__name__})
+            sys.exit(ctx.finish(getattr(ctx, "_deferred", ("(aborted)",))[0]))
         print("MACHINERY-FAILURE %s: unexpected exception" % prop)
         sys.exit(2)
     sys.exit(rc)
